@@ -19,24 +19,24 @@ import (
 )
 
 type Engine struct {
-	repo     string
-	verifDir string
-	prog     *ssa.Program
-	fset     *token.FileSet
-	pkgs     map[string]*ssa.Package // by import path
-	ppkgs    map[string]*packages.Package
-	errType  types.Type
-	known    map[string]bool
-	overlay  map[string][]byte
-	ovFiles  map[string]string // virtual -> real path
-	LoadTime time.Duration
-	validationRuns int
-	fnNames  sync.Map
-	BufSize  int
+	repo                   string
+	verifDir               string
+	prog                   *ssa.Program
+	fset                   *token.FileSet
+	pkgs                   map[string]*ssa.Package // by import path
+	ppkgs                  map[string]*packages.Package
+	errType                types.Type
+	known                  map[string]bool
+	overlay                map[string][]byte
+	ovFiles                map[string]string // virtual -> real path
+	LoadTime               time.Duration
+	validationRuns         int
+	fnNames                sync.Map
+	BufSize                int
 	lastPaths, lastQueries int
-	lastHarnesses []string
-	reachMu  sync.Mutex
-	reachSet map[string]bool
+	lastHarnesses          []string
+	reachMu                sync.Mutex
+	reachSet               map[string]bool
 }
 
 func (g *Engine) isReached(h, l string) bool {
@@ -178,19 +178,19 @@ type Param struct {
 }
 
 type Harness struct {
-	Name      string
-	Prop      string
-	Fn        *ssa.Function
-	Params    []Param
-	Summarize []string
-	Contracts []string
-	Lazy      bool
-	MaxDec    int
-	MaxSteps  int
-	Tiers     string // "" = both
-	Expect    string // "" | "violation" (self-test harnesses)
-	Doc       string
-	ReplayIters int
+	Name         string
+	Prop         string
+	Fn           *ssa.Function
+	Params       []Param
+	Summarize    []string
+	Contracts    []string
+	Lazy         bool
+	MaxDec       int
+	MaxSteps     int
+	Tiers        string // "" = both
+	Expect       string // "" | "violation" (self-test harnesses)
+	Doc          string
+	ReplayIters  int
 	BufSensitive bool
 	RealSize     bool
 }
@@ -370,18 +370,18 @@ type task struct {
 }
 
 type PathResult struct {
-	alts       [][]int64
-	viol       []Violation
-	reached    map[string]map[string]uint64
-	notes      map[string]int
-	globalWr   map[string]bool
-	end        string
-	steps      int
-	inputs     []InputVar
-	unsupp     string
-	crash      string
-	pcSize     int
-	asserts    int
+	alts     [][]int64
+	viol     []Violation
+	reached  map[string]map[string]uint64
+	notes    map[string]int
+	globalWr map[string]bool
+	end      string
+	steps    int
+	inputs   []InputVar
+	unsupp   string
+	crash    string
+	pcSize   int
+	asserts  int
 }
 
 type HarnessResult struct {
@@ -413,13 +413,13 @@ type FoundViolation struct {
 }
 
 type worker struct {
-	ctx   *Ctx
-	sol   *Solver
-	paths int
+	ctx                   *Ctx
+	sol                   *Solver
+	paths                 int
 	q, nsat, nunsat, nunk int
-	stime time.Duration
-	errs  []string
-	shared *sharedCaches
+	stime                 time.Duration
+	errs                  []string
+	shared                *sharedCaches
 }
 
 func (w *worker) retire() {
@@ -531,12 +531,12 @@ func typeWidthOr64(t types.Type) int {
 }
 
 type RunOpts struct {
-	Workers   int
-	Solver    string
-	TimeoutMs int
-	MaxViol   int
-	Verbose   bool
-	MaxPaths  int
+	Workers    int
+	Solver     string
+	TimeoutMs  int
+	MaxViol    int
+	Verbose    bool
+	MaxPaths   int
 	InstFilter string
 }
 
